@@ -26,6 +26,14 @@ func genC18(g *gen) {
 			v := g.operand(&prefix, &nv, dt, sh, lay)
 			shared = append(shared, v)
 		}
+		// every shared tensor is formatted once before the goroutines start: the text "running alone"
+		verbs := []string{"%v", "%+v", "%#v", "%.2f", "%d", "%s", "%-v"}
+		for _, v := range shared {
+			for _, vb := range verbs {
+				prefix = append(prefix, fmt.Sprintf("fmt $%d %s", v, vb))
+			}
+		}
+		isFloat := dt == "f64" || dt == "f32" || dt == "c128"
 		ng := 2 + g.r.intn(3)
 		if g.thorough() && g.r.chance(1, 4) {
 			ng = 8 + g.r.intn(9)
@@ -37,7 +45,35 @@ func genC18(g *gen) {
 			nsteps := 3 + g.r.intn(6)
 			for s := 0; s < nsteps; s++ {
 				sv := shared[g.r.intn(len(shared))]
-				switch g.r.intn(10) {
+				switch g.r.intn(14) {
+				case 10: // formatting of a shared tensor
+					steps = append(steps, fmt.Sprintf("fmt $%d %s", sv, g.r.pick(verbs)))
+				case 11: // reductions over a shared tensor
+					if dt == "c128" {
+						steps = append(steps, fmt.Sprintf("red sum fn $%d %s vs=2", sv, g.r.pick([]string{"-", "0"})), fmt.Sprintf("dump $%d", lv))
+					} else {
+						steps = append(steps, fmt.Sprintf("red %s fn $%d %s vs=2", g.r.pick([]string{"sum", "max", "min"}), sv, g.r.pick([]string{"-", "0"})), fmt.Sprintf("dump $%d", lv))
+					}
+					lv++
+				case 12: // arg reductions
+					if dt != "c128" {
+						steps = append(steps, fmt.Sprintf("arg %s fn $%d %s vs=2", g.r.pick([]string{"argmax", "argmin"}), sv, g.r.pick([]string{"0", "all"})), fmt.Sprintf("dump $%d", lv))
+						lv++
+					}
+				case 13: // products: the shared tensor with a private transposed copy of another shared one, or two shared vectors
+					if isFloat {
+						o := shared[g.r.intn(len(shared))]
+						if len(sh) == 1 {
+							steps = append(steps, fmt.Sprintf("la %s fn $%d $%d", g.r.pick([]string{"inner", "dot"}), sv, o), fmt.Sprintf("dump $%d", lv))
+							lv++
+						} else if len(sh) == 2 {
+							steps = append(steps, fmt.Sprintf("clone $%d", o), fmt.Sprintf("T $%d 1,0", lv))
+							c := lv
+							lv++
+							steps = append(steps, fmt.Sprintf("la %s fn $%d $%d", g.r.pick([]string{"mm", "dot"}), sv, c), fmt.Sprintf("dump $%d", lv))
+							lv++
+						}
+					}
 				case 0:
 					steps = append(steps, fmt.Sprintf("dump $%d", sv))
 				case 1:
